@@ -24,4 +24,6 @@ def p_deflevels(ctx):
 
 
 def run(ctx):
-    return run_property(ctx, "proof", EXPLANATION, p_parts=[p_kernels, p_deflevels], b_modules=["c11_numpy_paths"])
+    from ._generic import optional_parts
+    extra = optional_parts(("_hybrid", "p_hybrid"), ("_encoders", "p_encoders"), ("_speedups", "p_speedups"))
+    return run_property(ctx, "proof", EXPLANATION, p_parts=[p_kernels, p_deflevels] + extra, b_modules=["c11_numpy_paths"])
